@@ -81,7 +81,25 @@ ADMIN_MODELS = [
      "setup": "setups/auth.json", "init_from_setup": True},
 ]
 
+def txm(n):
+    return {"name": "tx" + n.lower(), "module": "MC_TxShape.tla", "cfg": {"quick": f"MC_Tx{n}Quick.cfg", "thorough": f"MC_Tx{n}Thorough.cfg"},
+            "setup": "setups/auth.json", "timeout": {"quick": 900, "thorough": 7200}}
+
+
+def tx_nontrivial(e):
+    a = e.get("a")
+    if isinstance(a, dict) and a.get("op") == "tx":
+        return (tuple((x.get("op"), x.get("acct"), x.get("program"), x.get("end_index"), x.get("cpi")) for x in a.get("ixs", [])), e.get("res"))
+    return None
+
+
 PROPS = {
+    "C10": {"models": [txm("Recv")], "drivers": ADMIN_DRIVERS + LIQ_DRIVERS, "nontrivial": tx_nontrivial,
+            "rule": "each instruction list executed as one atomic transaction on the real program is one evaluation; all are non-trivial; distinct by (instruction list, result)",
+            "min_nontrivial": 1000},
+    "C11": {"models": [txm("Flash"), txm("Flash3")], "drivers": ADMIN_DRIVERS, "nontrivial": tx_nontrivial,
+            "rule": "each instruction list executed as one atomic transaction on the real program is one evaluation; all are non-trivial; distinct by (instruction list, result)",
+            "min_nontrivial": 1000},
     "C12": risk_prop2(["configure_bank", "configure_interest", "configure_limits", "configure_emode", "clone_emode", "setup_emissions", "update_emissions",
                        "tokenless_complete", "write_metadata", "configure_oracle", "set_fixed_price", "tx"], ADMIN_DRIVERS, models=ADMIN_MODELS, minnt=200),
     "C19": risk_prop2(["collect_fees", "withdraw_fees", "withdraw_fees_perm", "withdraw_insurance", "settle_emissions", "withdraw_emissions",
